@@ -144,11 +144,14 @@ def gen_utimes(rng, cid):
 class Fam:
     """a family of programs: progs[0] is the top; every program knows its includes, inherits and function texts"""
 
-    def __init__(self, rng, cid, nprog=None, big=False, saves=None, sb_force=None):
+    def __init__(self, rng, cid, nprog=None, big=False, saves=None, sb_force=None, shape=None):
         self.rng = rng
         self.dir = "c17/w/" + cid
         self.used_names = set()
         nprog = rng.range(1, 4) if nprog is None else nprog
+        self.shape = shape
+        if shape == "siblings":
+            nprog = 3
         self.progs = []
         for i in range(nprog):
             # names of different lengths (the binary stores the names of the program and of its parents)
@@ -157,7 +160,13 @@ class Fam:
         # inheritance: a chain, sometimes the top inherits two
         for i in range(nprog - 1):
             self.progs[i]["inh"].append(i + 1)
-        if nprog >= 3 and rng.chance(1, 3):
+        if shape == "siblings":
+            # two programs share a parent: p0 and p1 both inherit p2 (p1 is loaded only by the sibling steps)
+            for p in self.progs:
+                p["inh"] = []
+            self.progs[0]["inh"] = [2]
+            self.progs[1]["inh"] = [2]
+        elif nprog >= 3 and rng.chance(1, 3):
             self.progs[1]["inh"].remove(2)
             self.progs[0]["inh"].append(2)
         self.incs = {}     # include file name -> constant
@@ -166,10 +175,19 @@ class Fam:
             p["types"] = rng.chance(1, 2)
             for _ in range(rng.weighted([(0, 3), (1, 4), (2, 2)])):
                 nm = "h%d.h" % len(self.incs)
-                self.incs[nm] = {"k": rng.range(1, 50), "nested": None}
+                if rng.chance(1, 4):
+                    # a header that lives in the include directory (found through the search path, by its bare name)
+                    nm = "c17g_%s_h%d.h" % (cid, len(self.incs))
+                    self.incs[nm] = {"k": rng.range(1, 50), "nested": None, "global": True}
+                else:
+                    self.incs[nm] = {"k": rng.range(1, 50), "nested": None}
                 p["inc"].append(nm)
+        if shape == "siblings":
+            nm = "h%d.h" % len(self.incs)             # the shared parent has a header of its own
+            self.incs[nm] = {"k": rng.range(1, 50), "nested": None}
+            self.progs[2]["inc"].append(nm)
         # one nested include now and then
-        names = sorted(self.incs)
+        names = sorted(n for n in self.incs if not self.incs[n].get("global"))
         if len(names) >= 2 and rng.chance(1, 2):
             self.incs[names[0]]["nested"] = names[1]
             for p in self.progs:                     # a file must not be included twice by the same program
@@ -303,6 +321,12 @@ class Fam:
         return "%s/%s" % (self.dir, self.progs[i]["file"])
 
     def inc_path(self, nm):
+        d = self.incs.get(nm, {})
+        if d.get("global") and not d.get("shadowed"):
+            return "include/%s" % nm
+        return "%s/%s" % (self.dir, nm)
+
+    def local_path(self, nm):
         return "%s/%s" % (self.dir, nm)
 
     def inc_text(self, nm):
@@ -322,6 +346,8 @@ class Fam:
         if p.get("sb") == "inc-top":
             out.append(self.inc_path(p["sbinc"]))
         for nm in p["inc"]:
+            if self.incs[nm].get("global") and not self.incs[nm].get("shadowed"):
+                out.append("!" + self.local_path(nm))      # looked for next to the source first: noted as missing
             out.append(self.inc_path(nm))
             if self.incs[nm]["nested"]:
                 out.append(self.inc_path(self.incs[nm]["nested"]))
@@ -388,7 +414,9 @@ class Fam:
         the value the source prescribes for it is the expectation"""
         rng = self.rng
         toks, expect = [], []
-        for p in self.progs:
+        for n, p in enumerate(self.progs):
+            if self.shape == "siblings" and n == 1:
+                continue
             for f in p["fns"]:
                 if not f["public"] or len(toks) > 300:
                     continue
@@ -407,14 +435,18 @@ class Fam:
         return toks, expect
 
 
-def sys_case(rng, cid, steps=None, nprog=None, big=False, script=None, mode=None, saves=None, sb_force=None):
-    fam = Fam(rng, cid, nprog=nprog, big=big, saves=saves, sb_force=sb_force)
+def sys_case(rng, cid, steps=None, nprog=None, big=False, script=None, mode=None, saves=None, sb_force=None, shape=None):
+    fam = Fam(rng, cid, nprog=nprog, big=big, saves=saves, sb_force=sb_force, shape=shape)
     t = 1000
     L = ["clean /" + fam.dir]
     for nm in sorted(fam.incs):
         L.append("file /%s %s" % (fam.inc_path(nm), hx(fam.inc_text(nm))))
         L.append("mtime /%s %d" % (fam.inc_path(nm), t))
         t += 1
+    for i in range(len(fam.progs)):
+        for nm in fam.progs[i]["inc"]:
+            if fam.incs[nm].get("global"):
+                L.append("incsearch %s %s %s" % (fam.path(i), fam.local_path(nm), fam.inc_path(nm)))
     for i in reversed(range(len(fam.progs))):
         L.append("file /%s %s" % (fam.path(i), hx(fam.text(i))))
         L.append("mtime /%s %d" % (fam.path(i), t))
@@ -458,7 +490,7 @@ def sys_case(rng, cid, steps=None, nprog=None, big=False, script=None, mode=None
             script.append(rng.weighted([("nothing", 6), ("edit-src", 3), ("edit-inc", 3), ("touch-inh", 2), ("touch-src", 2),
                                         ("touch-inc", 1), ("simul-restart", 2), ("restart", 1), ("equal-inc", 1),
                                         ("simul-norestart", 1), ("edit-parent-inc", 2), ("damage", 2), ("foreign", 2), ("moved", 1), ("badload", 1),
-                                        ("parent-noreload", 3), ("parent-drops-pragma", 3), ("parent-refused", 3)]))
+                                        ("parent-noreload", 3), ("parent-drops-pragma", 3), ("parent-refused", 3), ("shadow-inc", 3)]))
     for act in script:
         t += 1
         which = None
@@ -568,6 +600,42 @@ def sys_case(rng, cid, steps=None, nprog=None, big=False, script=None, mode=None
                     fam.progs[i]["k"] += 1
                     L.append("file /%s %s" % (fam.path(i), hx(fam.text(i))))
                     L.append("mtime /%s %d" % (fam.path(i), t))
+        elif act == "sibling-rebuild" and fam.shape == "siblings" and mode == "reload":
+            # p0 and p1 both inherit p2.  A header only p2 includes is edited; then only the sibling p1 is loaded again
+            # (compiled and saved again: newer than the header) while p0's binary stays older than the header.  After a
+            # restart both are loaded one after the other with p2 staying in memory: the driver is asked about the same
+            # parent program twice, with two different binary times.  (p1 is never the top of the ordinary reloads.)
+            own = [nm for nm in fam.progs[2]["inc"] if all(nm not in fam.progs[j]["inc"] for j in range(2))]
+            if own:
+                nm = rng.choice(own)
+                fam.incs[nm]["k"] += 1
+                L.append("file /%s %s" % (fam.inc_path(nm), hx(fam.inc_text(nm))))
+                L.append("mtime /%s %d" % (fam.inc_path(nm), t))
+                for fam_line in ("reload %s %s | %s" % (objs[1], objs[2], objs[0]), None,
+                                 "reload %s %s" % (objs[1], objs[2]), "reload %s | %s" % (objs[0], objs[2])):
+                    if fam_line is None:
+                        L.append("restart " + " ".join(objs))
+                        continue
+                    t += 10
+                    L.append("now %d" % t)
+                    L.append("intern " + " ".join(hx(n) for n in rng.shuffle(names)))
+                    # p1 is a top of its own: none of the case's calls are meant for it
+                    L.append("calls nosuch_zz:x" if fam_line.startswith("reload " + objs[1] + " ") else "calls " + " ".join(calls))
+                    L.append(fam_line)
+                    t += 10
+                L.append("calls " + " ".join(calls))
+        elif act == "shadow-inc":
+            # a header found in the include directory gets a namesake next to the sources (older or newer than everything)
+            cand = [nm for nm in sorted(fam.incs) if fam.incs[nm].get("global") and not fam.incs[nm].get("shadowed")]
+            if cand:
+                nm = rng.choice(cand)
+                fam.incs[nm]["shadowed"] = True
+                fam.incs[nm]["k"] += 1
+                L.append("file /%s %s" % (fam.inc_path(nm), hx(fam.inc_text(nm))))
+                L.append("mtime /%s %d" % (fam.inc_path(nm), rng.choice([t, 900, 950])))
+                for i in range(len(fam.progs)):
+                    if nm in fam.progs[i]["inc"]:
+                        L.append(fam.decl(i))
         elif act == "parent-drops-pragma":
             # the header that carries a parent's `#pragma save_binary` is edited and loses it: the parent is compiled again
             # but not saved again, its binary on disk is a leftover older than what the parent in memory was built from
@@ -691,6 +759,23 @@ def boundary():
                          mode=["reloadp", "reload"][seed % 2])
             c.id = "b-sys-refused-resave-%d-%d" % (k, seed)
             B.append(c)
+    # two programs share a parent whose own header is edited; one of them is rebuilt before everything is loaded again
+    for k, (saves, script) in enumerate([([True, True, False], ["sibling-rebuild", "nothing"]),
+                                         ([True, True, False], ["sibling-rebuild", "sibling-rebuild", "nothing"]),
+                                         ([True, True, True], ["sibling-rebuild", "nothing"])]):
+        for seed in (7800, 7801, 7802, 7803):
+            c = sys_case(E.Rng(seed + 10 * k), "sb%d_%d" % (k, seed), script=script, saves=saves, shape="siblings", mode="reload")
+            c.id = "b-sys-siblings-%d-%d" % (k, seed)
+            B.append(c)
+    # a header in the include directory is shadowed by a new file next to the sources (seeds chosen so that the family has one)
+    nsh = 0
+    for seed in range(7700, 7760):
+        c = sys_case(E.Rng(seed), "h%d" % seed, nprog=2 + seed % 2, script=["shadow-inc", "nothing", "edit-inc"],
+                     mode=["reloadp", "reload"][seed % 2])
+        if any(l.startswith("incsearch ") for l in c.lines) and nsh < 8:
+            c.id = "b-sys-shadow-inc-%d" % seed
+            B.append(c)
+            nsh += 1
     for k in range(4):
         c = sys_case(E.Rng(7300 + k), "e%d" % k, nprog=2, script=["badload", "nothing"], mode="reload")
         c.id = "b-sys-badload-%d" % k
@@ -710,7 +795,13 @@ def generate(rng, n, tier):
     out = []
     for i in range(n):
         if rng.chance(3, 10):
-            out.append(sys_case(rng, "g%d" % i))
+            if rng.chance(1, 8):
+                # two programs sharing a parent, rebuilt one at a time
+                out.append(sys_case(rng, "g%d" % i, shape="siblings", mode="reload",
+                                    script=[rng.choice(["sibling-rebuild", "nothing", "edit-inc"]) for _ in range(rng.range(1, 3))] +
+                                           ["sibling-rebuild", "nothing"]))
+            else:
+                out.append(sys_case(rng, "g%d" % i))
         else:
             out.append(unit_case(rng, "g%d" % i))
     return out
